@@ -4,6 +4,7 @@
 import Minicbor.Drv.Proto
 import Minicbor.Encoder
 import Minicbor.Decoder
+import Minicbor.Wire
 
 namespace Minicbor.Drv
 
@@ -53,6 +54,49 @@ def encOp (w : List String) : String :=
     | "str" => match bytesOfHex a with
         | some b => if validUtf8 b then hexOfBytes (Enc.str b) else "bad-op"
         | none => "bad-op"
+    | _ => "bad-op"
+  | _ => "bad-op"
+
+/-- the independent specification for `enc` operations: the RFC 8949 preferred serialisation
+    of the data-model value the call denotes (`invalid` if there is none). -/
+def encSpec (w : List String) : String :=
+  let item (x : Int) : Item := if x ≥ 0 then .uint x.toNat else .nint (-1 - x).toNat
+  match w with
+  | [m] =>
+    match m with
+    | "null" => hexOfBytes (encPref (.simple 22))
+    | "undefined" => hexOfBytes (encPref (.simple 23))
+    | "begin_array" => "9f" | "begin_bytes" => "5f" | "begin_map" => "bf" | "begin_str" => "7f" | "end" => "ff"
+    | _ => "bad-op"
+  | [m, a] =>
+    let int? := a.toInt?
+    let num (lo hi : Int) (f : Int → Bytes) : String :=
+      match int? with
+      | some x => if inRange lo hi x then hexOfBytes (f x) else "bad-op"
+      | none => "bad-op"
+    match m with
+    | "u8"  => num 0 255 (fun x => encPref (item x))
+    | "u16" => num 0 65535 (fun x => encPref (item x))
+    | "u32" => num 0 4294967295 (fun x => encPref (item x))
+    | "u64" => num 0 18446744073709551615 (fun x => encPref (item x))
+    | "i8"  => num (-128) 127 (fun x => encPref (item x))
+    | "i16" => num (-32768) 32767 (fun x => encPref (item x))
+    | "i32" => num (-2147483648) 2147483647 (fun x => encPref (item x))
+    | "i64" => num (-9223372036854775808) 9223372036854775807 (fun x => encPref (item x))
+    | "int" => num (-18446744073709551616) 18446744073709551615 (fun x => encPref (item x))
+    | "simple" => match int? with
+        | some x => if (WItem.simple x.toNat).valid && x ≥ 0 then hexOfBytes (encPref (.simple x.toNat)) else "invalid"
+        | none => "bad-op"
+    | "bool" => hexOfBytes (encPref (.simple (if a == "1" then 21 else 20)))
+    | "char" => num 0 1114111 (fun x => encPref (item x))
+    | "tag" => num 0 18446744073709551615 (fun x => head 6 x.toNat)
+    | "array" => num 0 18446744073709551615 (fun x => head 4 x.toNat)
+    | "map" => num 0 18446744073709551615 (fun x => head 5 x.toNat)
+    | "f16" => match hexNat? a with | some b => hexOfBytes (encPref (.f16 (f32ToF16 b))) | none => "bad-op"
+    | "f32" => match hexNat? a with | some b => hexOfBytes (encPref (.f32 b)) | none => "bad-op"
+    | "f64" => match hexNat? a with | some b => hexOfBytes (encPref (.f64 b)) | none => "bad-op"
+    | "bytes" => match bytesOfHex a with | some b => hexOfBytes (encPref (.bytes b)) | none => "bad-op"
+    | "str" => match bytesOfHex a with | some b => hexOfBytes (encPref (.text b)) | none => "bad-op"
     | _ => "bad-op"
   | _ => "bad-op"
 
